@@ -145,13 +145,25 @@ def _process_func(u, header_line, lines, mutate=None):
     inits_mode = None
     members_extra = set()
     methods_extra = set()
+    # the function is located first so that sub-directives can be conditional on its C++ signature
+    f = cxx.find_function(relpath, qual, match, nth)
+    sigtext = re.sub(r'\s+', ' ', '%s(%s) %s' % (f.sig, f.params, f.trailer))
+    before = []
     j = 0
     while j < len(lines):
         ln = lines[j].strip()
         j += 1
         if not ln or ln.startswith('##'):
             continue
-        if ln.startswith('sig:'):
+        mcond = re.match(r'\[(if|ifnot) ([^\]]+)\]\s*(.*)$', ln)
+        if mcond:
+            hit = re.search(mcond.group(2), sigtext) is not None
+            if hit != (mcond.group(1) == 'if'):
+                continue
+            ln = mcond.group(3)
+        if ln.startswith('before:'):
+            before.append(ln[7:].strip())
+        elif ln.startswith('sig:'):
             sig = ln[4:].strip()
         elif ln.startswith('class:'):
             p = ln[6:].split()
@@ -205,7 +217,6 @@ def _process_func(u, header_line, lines, mutate=None):
             raise cxx.ExtractError('unknown func sub-directive: ' + ln)
     if sig is None:
         raise cxx.ExtractError('func %s: no sig:' % qual)
-    f = cxx.find_function(relpath, qual, match, nth)
     body = f.body
     if mutate:
         for (mq, pat, rep) in mutate:
@@ -260,7 +271,7 @@ def _process_func(u, header_line, lines, mutate=None):
                     'tokens_unchanged': same, 'rules': dict(log.fired)})
     for k, v in log.fired.items():
         u.rules[k] = u.rules.get(k, 0) + v
-    text = '/* extracted: %s :: %s (line %d) */\n%s\n%s\n%s\n' % (relpath, qual, f.line, sig, '\n'.join(contract), b)
+    text = '%s\n/* extracted: %s :: %s (line %d) */\n%s\n%s\n%s\n' % ('\n'.join(before), relpath, qual, f.line, sig, '\n'.join(contract), b)
     return text
 
 
